@@ -10,6 +10,7 @@ Cases are of two shapes:
   * `reconnect policy=default` (end to end): a default ReconnectLayer against an inner service that fails for
     hours of virtual time; the request must keep retrying every 5 s and never panic.
 """
+import random
 from fractions import Fraction
 from gen.util import kvs, tparse
 from gen import reconnect as rc
@@ -349,7 +350,44 @@ def _near_one_case(rng, tier):
     return {"header": " ".join(words), "ops": ["probe backoff attempt=%d" % a for a in attempts]}
 
 
+def _factor_one_case(rng, tier):
+    """jitter at the boundary of the documented range: randomization factor exactly 1 (or above, clamped) and capped delays with
+    more than 53 significant bits in nanoseconds, whose f64 image may round up (`delta` then exceeds the delay itself)"""
+    DAY = 86400 * SEC
+    kind = rng.choice(JITTER_KINDS)
+    r = rng.random()
+    if r < 0.4:
+        cap = rng.randint(105, 4000) * DAY + rng.choice([-1, 1, -3, 3, rng.randint(1, SEC - 1)])
+    elif r < 0.7:
+        cap = 2 ** rng.randint(53, 90) + rng.choice([-1, 1, 3, rng.randint(1, 2 ** 20)])
+    else:
+        cap = rng.randint(2 ** 53, min(DUR_MAX, 2 ** rng.randint(54, 94)))
+    cap = min(cap, DUR_MAX)
+    initial = rng.choice([DAY, SEC, 3600 * SEC, 123456789, cap, cap - 1])
+    words = ["backoff", "kind=" + kind, "initial_ns=%d" % initial]
+    if kind != "policy_rand":
+        words += ["mult_num=2", "mult_den=1"]
+    words += ["cap_ns=%d" % cap]
+    words += rng.choice([["rf_pct=100"], ["rf_num=1", "rf_den=1"], ["rf_num=3", "rf_den=2"], ["rf_num=7", "rf_den=0"],
+                         ["rf_num=999999999", "rf_den=1000000000"]])
+    x = Ideal(initial, 2, 1, cap).cross or 0
+    attempts = list(range(max(0, x - 3), x + 6)) + [0, 1, 64, 68, 1024, 10000, I32_MAX, 2 ** 32, USIZE_MAX]
+    attempts += [rng.randint(x, x + 5000) for _ in range(6)]
+    return {"header": " ".join(words), "ops": ["probe backoff attempt=%d" % a for a in attempts]}
+
+
 def gen(rng, tier):
+    # a directed stream drawn from its own generator (the main stream of cases stays what it was): one case in 25
+    peek = random.Random()
+    peek.setstate(rng.getstate())
+    side = random.Random(peek.getrandbits(64) ^ 0x9E3779B97F4A7C15)
+    if side.random() < 0.04:
+        gen_main(rng, tier)
+        return _factor_one_case(side, tier)
+    return gen_main(rng, tier)
+
+
+def gen_main(rng, tier):
     if rng.random() < (1 / 150.0):
         return _outage_case(rng, tier)
     if rng.random() < 0.07:
